@@ -71,6 +71,19 @@ def property_fails(drv, stmt, dialect):
     return it != sqlcheck.spec_tables(ans)
 
 
+# C09 classes (decidable predicates of `Spec/Agreement.lean`) under which ONE sqlfluff dialect reads core SQL into a tree that blinds
+# an extractor: class -> dialects.  Seen by C01 when its thorough tier runs every dialect; listed in known_findings.json under C01.
+DIALECT_CLASSES = {"K1": ["clickhouse"]}
+
+
+def dialect_classes(drv, stmt, cache):
+    k = canon_json(stmt)
+    if k not in cache:
+        out = drv.ask1({"cmd": "shape", "stmts": [stmt]})["out"][0]
+        cache[k] = list(out["classes"]) if out else []
+    return cache[k]
+
+
 def run(chk):
     if not chk.lean.driver_ok:
         chk.stale.append({"kind": "driver", "why": "model driver does not build"})
@@ -88,6 +101,7 @@ def run(chk):
     st = sqlcheck.Stats()
     listed = {e["id"] for e in chk.findings if e.get("status") == "finding"}
     per_class = collections.Counter()
+    class_cache = {}
     first_fail = None
     for (ci, d), i in zip(jobs, impl):
         name, s = cases[ci]
@@ -134,6 +148,13 @@ def run(chk):
                 if len(chk.stale) < 20:
                     chk.stale.append({"kind": "sql", "sql": a["sql"][0], "dialect": d, "impl": it, "model": mt, "ast": s})
             else:
+                # a dialect whose tree shape blinds an extractor (C09's classes, `Spec/Agreement.lean`): listed for this dialect?
+                cls = [c for c in dialect_classes(drv, s, class_cache) if d in DIALECT_CLASSES.get(c, []) and c in listed]
+                if cls:
+                    for c in cls:
+                        per_class[c] += 1
+                    st.c["known-dialect-class"] += 1
+                    continue
                 st.c["impl!=model,impl!=spec"] += 1
                 if first_fail is None:
                     first_fail = (s, d, "implementation differs from model AND from the specification")
